@@ -61,7 +61,7 @@ L16 = [
     ("ab", ["builder"]),
     ("abc", ["builder", "teddy"]),
     ("ab|cd", ["builder", "teddy"]),
-    ("foo|bar|baz", ["builder", "teddy", "fatteddy"]),
+    ("foo|bar|baz", ["builder", "teddy", "fatteddy", "wrap-lineanchor"]),
     ("abc|abd|bcd", ["builder", "teddy"]),          # shared fingerprints
     ("ab|abc", ["builder", "teddy"]),               # prefix of another literal
     ("abc|ab", ["builder", "teddy"]),               # order matters for leftmost-first
@@ -85,9 +85,14 @@ def items(tier):
         if tier == "quick" and lits not in QUICK:
             continue
         for kind in kinds:
-            for complete in ([0, 1] if kind in ("builder", "teddy", "fatteddy") else [0]):
+            for complete in ([0, 1] if kind in ("builder", "teddy", "fatteddy") else [1] if kind == "wrap-lineanchor" else [0]):
                 for s in ([0, 1] if tier == "quick" else [0, 1, 2]):
                     out.append(mk("C16", lits, kind, L, "", mode=complete, n=s))
+                if kind == "wrap-lineanchor":
+                    # a literal exactly AT the start offset, after a non-newline / after a newline
+                    out.append(mk("C16", lits, kind, 3, "", mode=complete, n=1, pre="x"))
+                    out.append(mk("C16", lits, kind, 3, "", mode=complete, n=3, pre="foo"))
+                    out.append(mk("C16", lits, kind, 3, "", mode=complete, n=4, pre="foo\n"))
                 # windows crossing the 16-byte switch of Teddy's scalar/vector split
                 if kind in ("teddy", "fatteddy", "builder") and tier != "quick":
                     out.append(mk("C16", lits, kind, 3, "", mode=complete, n=0, pre="x" * 14, post="y" * 3))
